@@ -5,9 +5,12 @@ Import ListNotations.
 Require Import Nib.C14.Model Nib.C14.Spec Nib.C14.Check Nib.C14.Proofs.
 Local Open Scope Z_scope.
 
-(** THE PROPERTY, block by block, along every history: for every sequence of BeginBlocker runs and
-    AddEpochInfo calls with non-decreasing context times and well-formed definitions, starting from any
-    well-formed state, every block satisfies [P_block]: per identifier the epoch number stays or advances by
+(** THE PROPERTY, block by block, along every history: for every sequence of BeginBlocker runs,
+    AddEpochInfo calls and InitGenesis runs (module (re-)initialisation with ANY genesis state — the default one,
+    one with duplicated / invalid / already stored identifiers — at ANY point of the chain, e.g. by an upgrade
+    handler's RunMigrations for a version map without the module) with non-decreasing context times and well-formed
+    definitions, starting from any well-formed state, every op that is not a block keeps every stored info
+    unchanged and calls no hook ([P_keep]) and every block satisfies [P_block]: per identifier the epoch number stays or advances by
     exactly one; it advances iff (not counting and start time reached) or (counting and block time >= current
     start + duration); on an advance the recorded start time / height are the block's and the hook calls for
     the identifier are exactly [AfterEpochEnd n (omitted on the first tick); BeforeEpochStart (n+1)]; without
@@ -18,8 +21,8 @@ Theorem C14_every_block_of_every_history :
 Proof. exact trace_satisfies_property. Qed.
 Print Assumptions C14_every_block_of_every_history.
 
-(** The epoch number of an identifier never decreases over a history (any times, also decreasing ones);
-    identifier, start time and duration never change. Needs only: an epoch that is not counting has number <= 1. *)
+(** The epoch number of an identifier never decreases over a history of blocks, additions and module
+    re-initialisations (any times, also decreasing ones); identifier, start time and duration never change. Needs only: an epoch that is not counting has number <= 1. *)
 Theorem C14_monotone :
   forall (ops : list op) (s : state) (i : nat) (e : einfo),
     Forall cur_ok s -> Forall add_cur_ok ops -> lookup i s = Some e ->
@@ -55,7 +58,8 @@ Theorem C14_at_most_one_per_block :
 Proof. exact at_most_one_per_block. Qed.
 Print Assumptions C14_at_most_one_per_block.
 
-(** Over a whole history (no assumption on times or counters): the hook calls of an identifier are exactly
+(** Over a whole history of blocks, additions and module re-initialisations (no assumption on times or counters):
+    the hook calls of an identifier are exactly
     the consecutive pairs AfterEpochEnd n; BeforeEpochStart (n+1) from its first to its last epoch number, in
     this order, preceded by a lone BeforeEpochStart 1 when counting started inside the history. *)
 Theorem C14_hooks_exactly_once_in_order :
@@ -137,6 +141,61 @@ Theorem C14_tick_iff_refuted_for_started_before_start_time :
   exists e t h, e_started e = true /\ cond e t /\ step_info t h e = (e, []).
 Proof. exact tick_iff_refuted_for_started_before_start_time. Qed.
 Print Assumptions C14_tick_iff_refuted_for_started_before_start_time.
+
+(** MODULE RE-INITIALISATION.  InitGenesis may run at any point of a history (ops [Init]; every theorem above and
+    below quantifies over histories containing them).  On this tree every write of InitGenesis goes through
+    AddEpochInfo's existence check (Gen/C14Oblig.v), so: an identifier that is stored is never touched … *)
+Theorem C14_init_keeps_every_stored_info :
+  forall (i : nat) (s : state) (ct ch : Z) (gs : list add_args) (e : einfo),
+    lookup i s = Some e -> lookup i (fst (init_genesis true s ct ch gs)) = Some e.
+Proof. exact lookup_init. Qed.
+Print Assumptions C14_init_keeps_every_stored_info.
+
+(** … re-running it with a genesis state whose identifiers are all stored (the upgrade route with the default
+    genesis) is the identity and reports the error that AppModule.InitGenesis discards … *)
+Theorem C14_init_on_initialised_store_is_identity :
+  forall (ct ch : Z) (gs : list add_args) (s : state),
+    gs <> [] -> (forall a, In a gs -> has_id (a_id a) s = true) -> init_genesis true s ct ch gs = (s, false).
+Proof. exact init_on_initialised_store_is_identity. Qed.
+Print Assumptions C14_init_on_initialised_store_is_identity.
+
+(** … and a genesis state with an invalid definition or a duplicated identifier writes nothing. *)
+Theorem C14_init_invalid_genesis_writes_nothing :
+  forall (g : bool) (s : state) (ct ch : Z) (gs : list add_args),
+    genesis_valid gs = false -> init_genesis g s ct ch gs = (s, false).
+Proof. exact init_invalid_genesis_writes_nothing. Qed.
+Print Assumptions C14_init_invalid_genesis_writes_nothing.
+
+(** The variant in which InitGenesis writes every epoch directly under its identifier (no existence check,
+    [run_v false]) violates the property on a history inside every hypothesis above: the epoch number of a running
+    identifier decreases (4, then 1) … *)
+Theorem C14_monotone_refuted_for_unguarded_init :
+  exists (ops : list op) (now : Z) (s : state) (i : nat) (e e' : einfo),
+    Inv now s /\ ops_ok now ops /\ Forall cur_ok s /\ Forall add_cur_ok ops /\
+    lookup i s = Some e /\ lookup i (fst (run_v false s ops)) = Some e' /\ e_cur e' < e_cur e.
+Proof. exact monotone_refuted_for_unguarded_init. Qed.
+Print Assumptions C14_monotone_refuted_for_unguarded_init.
+
+(** … BeforeEpochStart(id,1) is delivered twice and AfterEpochEnd(id,4) never (once each on this tree) … *)
+Theorem C14_hooks_once_refuted_for_unguarded_init :
+  exists (ops : list op) (i : nat),
+    Inv 100 [] /\ ops_ok 100 ops /\
+    count_occ hook_eq_dec (proj i (all_hooks (snd (run_v false [] ops)))) (BeforeStart i 1) = 2%nat /\
+    count_occ hook_eq_dec (proj i (all_hooks (snd (run_v false [] ops)))) (AfterEnd i 4) = 0%nat /\
+    count_occ hook_eq_dec (proj i (all_hooks (snd (run [] ops)))) (BeforeStart i 1) = 1%nat /\
+    count_occ hook_eq_dec (proj i (all_hooks (snd (run [] ops)))) (AfterEnd i 4) = 1%nat.
+Proof. exact hooks_once_refuted_for_unguarded_init. Qed.
+Print Assumptions C14_hooks_once_refuted_for_unguarded_init.
+
+(** … and the re-initialisation itself replaces a stored, running info (number, start height rewritten). *)
+Theorem C14_init_keep_refuted_for_unguarded_init :
+  exists (s : state) (ct ch : Z) (gs : list add_args) (i : nat) (e e' : einfo),
+    lookup i s = Some e /\ e_started e = true /\
+    lookup i (fst (init_genesis false s ct ch gs)) = Some e' /\
+    e_cur e' < e_cur e /\ e_started e' = false /\ e_height e' <> e_height e /\
+    lookup i (fst (init_genesis true s ct ch gs)) = Some e.
+Proof. exact init_keep_refuted_for_unguarded_init. Qed.
+Print Assumptions C14_init_keep_refuted_for_unguarded_init.
 
 (** FAILING HOOKS.  One registered receiver panics on a chosen call (the first [lf] times).  The panic leaves
     BeginBlocker (no recover on the path: Gen/C14Oblig.v), the block is not committed: *)
